@@ -12,6 +12,9 @@
      uv_write2 (entry check) stream.c:1333-1400, uv_try_write2 stream.c:1421-1436,
      uv__try_write (send_handle branch) stream.c:752-830
 
+   Variants: [cpfix] (repaired uv_pipe_connect, see cst), [try_write2 fixed].  [creg] mirrors
+   uv__req_init / uv__req_unregister.
+
    One stream handle per script.  Oracles (answer lists consumed in order):
    socket(2) results, connect(2) results (0 or -errno), SO_ERROR answers
    (0 or -errno), and for every loop iteration whether the kernel reported an
